@@ -311,7 +311,12 @@ def gen_script(rnd: random.Random) -> dict:
         for _ in range(rnd.randrange(1, 5)):
             olds.append((round(t1 + rnd.choice((rnd.uniform(0.0, 0.12), rnd.uniform(0.0, 0.05 * (nfr + 2)))), 4), z,
                          rnd.choice((1, 1, 1, rnd.randrange(1, nfr + 1))), "18:999999"))
-        return {"sizes": sizes, "calls": calls, "lose": {}, "bump_after": {}, "overheard": overheard, "bump_at": [(3.0, z)], "replay_old": olds}
+        lose = {}
+        if rnd.random() < 0.4:
+            # ... and the re-fetch's own change-counter request goes unanswered (every retry): an error, never the cached copy
+            lose[nfr + 2] = 9
+            olds = []
+        return {"sizes": sizes, "calls": calls, "lose": lose, "bump_after": {}, "overheard": overheard, "bump_at": [(3.0, z)], "replay_old": olds}
     if rnd.random() < 0.3:
         # a write (after a fetch of the same zone, so that the zone holds a labelled schedule), faults in the middle of it
         z = rnd.choice(ZONES)
